@@ -347,6 +347,62 @@ func VerifC10_RewriterLengths() {
 	sym.Reach("decoded")
 }
 
+// VerifC10_RewriterChainLengths: a chain of two inline rewriters and copy
+// (class, task) with each inlined field empty or not and a message of symbolic
+// length around the 65535/65536 header boundary: the reserved header is wide
+// enough for the rewritten length whichever of the inlined fields is present.
+//
+//verif:reach decoded
+func VerifC10_RewriterChainLengths() {
+	schema := base.MustNewLogSchema([]string{"class", "task", "log", "env"})
+	cfg := SerializationConfig{
+		EnvironmentFields: []string{"env"},
+		RewriteFields: map[string][]bconfig.LogRewriterConfigHolder{
+			"log": {{Value: &rinline.Config{Field: "class"}}, {Value: &rinline.Config{Field: "task"}}, {Value: &rcopy.Config{}}},
+		},
+	}
+	s, err := NewEventSerializer(logger.Root(), schema, cfg)
+	sym.Assume(err == nil)
+	class := []string{"", "C"}[sym.Choice("class", 2)]
+	task := []string{"", "T1"}[sym.Choice("task", 2)]
+	log := string(sym.BigBytes("log", 65520, 65545))
+	rec := schema.NewTestRecord2(sym.TimeFromUnixNano(1_600_000_000_000_000_000), base.LogFields{class, task, log, ""})
+	out := s.SerializeRecord(rec)
+	want := log
+	if len(task) > 0 {
+		want = "task=" + task + " " + want
+	}
+	if len(class) > 0 {
+		want = "class=" + class + " " + want
+	}
+	r := &verifReader{b: out}
+	r.header(1_600_000_000, 0)
+	n := 2
+	if len(class) > 0 {
+		n++
+	}
+	if len(task) > 0 {
+		n++
+	}
+	sym.Assert(r.mapLen() == n, "map count")
+	if len(class) > 0 {
+		r.str("class", "key class")
+		r.str(class, "value class")
+	}
+	if len(task) > 0 {
+		r.str("task", "key task")
+		r.str(task, "value task")
+	}
+	r.str("log", "key log")
+	r.str(want, "rewritten log")
+	r.str("environment", "key environment")
+	sym.Assert(r.mapLen() == 1, "environment map size")
+	r.str("env", "key env")
+	r.str("", "empty env value")
+	sym.Assert(r.p == len(out), "nothing follows the event")
+	sym.Reach("decoded")
+}
+
 // VerifC07_EncodeAnyLengths: header fields are not length-limited by the
 // parser (only the message is), and the listener hands over records of up to
 // four times the nominal maximum: for every combination of field lengths the
